@@ -225,10 +225,28 @@ def _offsets(repo, col):
     ok = first is not None and first[0][:2] == ["source", "sink"]
     col.check(ok, R, cj, "cell edge table has columns (source, sink, type) -- the order the network's positional offsets assume",
               str(first[0] if first else None), f"first edge frame has columns {first[0] if first else None}", node=first[2] if first else cj.node)
-    st = [s for s in idx.expander(repo, ns).stores if s.kind == "attr" and s.key.name == "_cumsum_ncomp_per_cell"]
-    t = unparse(st[0].stmt.value) if st else ""
-    col.check(t == "cumsum_leading_zero(jnp.asarray([cell.cumsum_ncomp[-1] for cell in self.cells]))", R, ns,
-              "compartment offsets = leading-zero cumsum of the cells' compartment counts", "", f"is {t}", node=st[0].node if st else ns.node)
+    cell_offsets_definition(repo, col, R)
+
+
+def cell_offsets_definition(repo, col, R):
+    """`_cumsum_ncomp_per_cell[c]` is the global index of the first compartment of cell c (used as compartment offset of the
+    edge blocks and as presynaptic site by sparse_connect): leading-zero cumsum of each cell's OWN number of compartments."""
+    from sa.terms import nest, fuse_comprehensions
+    ns = repo.method("Network", "_init_morph_jax_spsolve")
+    st = [s_ for s_ in idx.expander(repo, ns).stores if s_.kind == "attr" and s_.key.name == "_cumsum_ncomp_per_cell"]
+    if not st:
+        raise AnalysisError("Network no longer defines _cumsum_ncomp_per_cell in _init_morph_jax_spsolve")
+    v = fuse_comprehensions(idx.inline(repo, ns, st[0].value, keep=("cumsum_leading_zero",)))
+    last = T.find(v, lambda x: x.op == "sub" and x.args[0].op == "attr" and x.args[0].name == "cumsum_ncomp" and
+                  x.args[1].op == "unary" and x.args[1].name == "USub" and x.args[1].args[0].op == "const" and x.args[1].args[0].name == 1)
+    per_cell = last is not None and T.find(last.args[0], lambda x: x.op == "elem") is not None
+    ok = nest(v, "cumsum_leading_zero", "cumsum_ncomp", "each") and per_cell
+    recognised = nest(v, "cumsum_leading_zero") or T.find(v, lambda x: x.op == "binop") is not None
+    col.add(R, ns, "compartment offsets of the cells = leading-zero cumsum of the cells' own compartment counts",
+            "DISCHARGED" if ok else ("VIOLATED" if recognised else "UNDECIDED"),
+            "cumsum_leading_zero([cell.cumsum_ncomp[-1] for cell in cells])" if ok else
+            f"_cumsum_ncomp_per_cell is {v.short(100)}: the offset of cell c must be the total number of compartments of the cells before it "
+            f"(cells may differ in size, branches in their number of compartments)", node=st[0].node)
 
 
 class _Seq:
